@@ -32,6 +32,7 @@ type LoopRec struct {
 	HasExit bool
 	Prog    []*CursorProgress
 	NBack   int
+	Entry   map[string]*Term // value of each loop-carried integer at loop entry, by the symbol that stands for it in the body
 }
 
 // CursorProgress is the termination argument one cursor variable offers.
@@ -326,7 +327,7 @@ func (in *Interp) exec(st *State, s ast.Stmt) (*State, bool) {
 			}
 			if reads[i] != nil {
 				r := reads[i]
-				r.Src = in.operand(st, l)
+				r.Src = in.destName(st, l)
 				if !in.isPlainRead(x.Rhs[i]) {
 					r.Kind = "packed"
 					r.Expr = x.Rhs[i]
@@ -1518,6 +1519,12 @@ func (in *Interp) execFor(st *State, x *ast.ForStmt, label string) (*State, bool
 			}
 		}
 	}
+	lr.Entry = map[string]*Term{}
+	for o, sym := range syms {
+		if ev, ok := st.vars[o].(IntV); ok {
+			lr.Entry[sym.String()] = ev.T
+		}
+	}
 	for _, h := range hyps {
 		body.facts = append(body.facts, h.fact)
 	}
@@ -1907,6 +1914,23 @@ func (w *World) lenFloor(typ string) (int64, string, bool) {
 	why := fmt.Sprintf("smallest size among the %d kinds a %s can be (%s)", len(kinds), typ, minK)
 	w.floorCache[typ] = [2]any{min, why}
 	return min, why, true
+}
+
+// destName names the destination of a read: the canonical path of a receiver
+// (or local object) field, not its current value.
+func (in *Interp) destName(st *State, l ast.Expr) string {
+	if se, ok := unparen(l).(*ast.SelectorExpr); ok {
+		if p, t, ok := in.selPath(st, se); ok {
+			if t != nil && isIntType(t) {
+				return "val(" + p + ")"
+			}
+			if b, isB := t.Underlying().(*types.Basic); isB && b.Info()&types.IsBoolean != 0 {
+				return "val(" + p + ")"
+			}
+			return p
+		}
+	}
+	return in.operand(st, l)
 }
 
 func identObjOf(in *Interp, e ast.Expr) types.Object {
